@@ -30,8 +30,13 @@ def boxed(f):
     def impl():
         fresh = tuple(clone_any(v) for v in defaults)
         g = types.FunctionType(f.__code__, f.__globals__, f.__name__, fresh, f.__closure__)
+        first = g()
+        out = outcome_of(first)
+        # the same call once more on the SAME operand objects: the oracles look at this second result, so an operation that is right the
+        # first time but disturbs its operands (or hidden state) fails its own value oracle; the model is compared with the first outcome
         box["r"] = g()
-        return outcome_of(box["r"])
+        box["r_first"] = first
+        return out
     return box, impl
 
 
